@@ -48,11 +48,18 @@ AS["C08"] = """**As built** (`checks/c08.py`).  Wang Γ limit as exact per-entry
 inconclusive in z3 and is thorough-only, reported as inconclusive where it is); length independence; vanishing at
 non-zero commensurate q; Z = 0 for both methods with symbolic force constants and ε; Gonze–Lee direction dependence
 with symbolic n.  Concrete-only floating-point operations inside the interpreter are performed in IEEE double (not as
-exact rationals) so that the same float constants enter both sides (§6).  Quick 78 s."""
+exact rationals) so that the same float constants enter both sides (§6).  Added after the first full pass:
+**sym_born** — `symmetrize_borns_and_epsilon` in E2 on symbolic Born and dielectric tensors (six crystals incl.
+hexagonal, screw-axis and a conventional NaCl cell with primitive matrix): output = space-group average (oracle
+rotations checked orthogonal) minus the mean charge, idempotent, right atoms selected for the primitive cell; the
+tensor box is kept below the 0.1 "symmetry largely broken" warning threshold so that the real code takes one path.
+Quick 78 s."""
 AS["C09"] = """**As built** (`checks/c09.py`).  As planned; shift box [−0.1, 0.55] in quick, [−0.6, 0.55] in
 thorough; crystals include hexagonal and monoclinic cells.  Found defects F10 and F11 (both repaired; after the repair
 a general shift is sampled on the requested grid without time-reversal reduction and the three assertions hold on
-every path).  Quick 81 s."""
+every path).  Added later: **api** units run the same assertions on the `GridPoints` object that
+`Phonopy.init_mesh` builds (rotations passed by the API; explicit mesh numbers and length-specified meshes through
+`length2mesh`) as ground facts.  Quick 81 s."""
 AS["C10"] = """**As built** (`checks/c10.py`).  Four units as in the docstring: mode formulas (C = Python =
 documented closed forms, uninterpreted transcendentals unified where the solver proves their arguments equal, stated
 lemma instances each with its side condition solver-proved), kernel loop on symbolic T/frequencies/cutoff (merge mode),
@@ -65,14 +72,25 @@ unit's first oracle was wrong (§6): the 24 tetrahedra around a grid point do no
 they are the four translates of six tetrahedra that tile the unit microcell, which is what is now proved with LRA
 queries over a symbolic point (no uncovered point, no shared interior point) together with C tables = Python tables.
 Three NRA derivative identities (middle interval, vertex positions 1 and 3) stay `unknown` in every solver available
-and are reported as inconclusive on every run.  The projected-DOS sum rule was not encoded.  Quick 98 s."""
+and are reported as inconclusive on every run.  Added after the first full pass: **dos** — `dos.py` in E2:
+smearing kernels = normalised Gaussian/Lorentzian for all x, σ; smearing DOS/PDOS = weight-normalised sums for all
+amplitudes; tetrahedron projected DOS with symbolic |e|² coefficients on a real mesh through the fused compiled kernel
+(IR via the bridge) and through the Python `TetrahedronMesh` route: additive over atoms, non-negative, compiled =
+Python for all coefficients; total DOS C = Py = Σ PDOS as ground facts.  Quick ≈ 100 s."""
 AS["C12"] = """**As built** (`checks/c12.py`).  `ddm_vs_dD` with symbolic q (cos/sin atoms canonicalised by parity
 before they are treated as independent variables — without this the same angle appears as `cos(u)` and `cos(−u)`),
 `c_vs_py` with symbolic force constants that are **not** assumed permutation symmetric, Wang C = Python with symbolic
 (non-symmetric) Born tensors; Wang derivative with symbolic q is thorough-only and may be inconclusive.  Solver models
 carry a meaningless q when the difference is a polynomial in independent cos/sin atoms, so the replay evaluates the
-three routes at generic q-points.  Found a new defect (Hermitisation loop of the compiled derivative, §5).  The
-Grüneisen formula was not encoded in this revision.  Quick 112 s."""
+three routes at generic q-points.  Found a new defect (Hermitisation loop of the compiled derivative, §5).
+Added after the first full pass: **gv** — the real `GroupVelocity.run/_calculate_group_velocity_at_q/
+_get_dD_analytical/_perturb_D/_symmetrize_group_velocity` on *symbolic Hermitian* dD/dq matrices (injected in place of
+the ddm object) with concrete LAPACK eigenvectors at q-points without degeneracies: velocity = factor²/(2f)·Re⟨e|dD/dq|e⟩,
+exactly zero at or below the cutoff, averaged over the Cartesian images under the operations that fix q (oracle rotations
+checked orthogonal; a transposed reciprocal lattice is caught on the hexagonal cell), for all dD (LRA); and
+**gruneisen** — the real `GruneisenBase` and `rotate_eigenvectors` on symbolic Hermitian D₊(q), D₋(q):
+γ = −(V₀/2λ)⟨e|D₊−D₋|e⟩/(V₊−V₋) for all D±, the uniform-scaling closed form for every mode and all s±, band connection
+only re-orders.  `eigh` of a symbolic 1×1 block is exact; degenerate bands are excluded.  Quick ≈ 2 min."""
 AS["C13"] = """**As built** (`checks/c13.py`, level `translation_validation`).  *sweep*: every kernel call made by
 real workflows on small crystals (all 19 exported kernels) is recorded on the compiled build and re-executed by the
 interpreter **from the real glue function of the unmodified `_phonopy.cpp`** (compiled to IR against a stand-in
